@@ -170,6 +170,44 @@ Proof.
     destruct anc0; discriminate.
 Qed.
 
+(* ... and it is a coordinate that LOCATES a node in the sense of C04 (Spec/C04spec.v del_located) *)
+Lemma first_idx_some {A} (P : A -> bool) l x : In x l -> P x = true -> first_idx P l <> None.
+Proof.
+  induction l as [|y r IH]; intros Hin Hp; [contradiction|]. simpl.
+  destruct (P y) eqn:E; [discriminate|]. destruct Hin as [->|Hin]; [congruence|].
+  destruct (first_idx P r); [discriminate|]. exfalso. apply (IH Hin Hp). reflexivity.
+Qed.
+
+Lemma located_del d x m :
+  wf_doc d -> ce_flat d = true -> mkeys_distinct d = true ->
+  res_loc true d x -> item_res x = SNode m -> ce_elem_parent x = true ->
+  del_located d (pc_pair (coord_of x)) = true.
+Proof.
+  intros Hwf Hf Hk Hl Hi He. destruct (plain_item _ _ Hi) as [par [rf [path [anc ->]]]].
+  simpl in Hl. destruct Hl as [Hw Hp].
+  destruct par as [[p| |]|]; destruct rf as [r|]; try contradiction; try discriminate.
+  destruct Hp as [Hc [anc' [r' ->]]].
+  pose proof (walks_inv _ _ _ Hf Hk (walks_last _ _ _ _ _ Hw)) as [Hin [Hfp Hkp]].
+  assert (Ho : coid p = Some (node_oid p)) by (destruct p; simpl in *; [contradiction|reflexivity..]).
+  pose proof (find_in_doc _ _ _ Hwf Hin Ho) as Hfind. rewrite find_obj_hd in Hfind.
+  unfold del_located, pc_pair, coord_of, target_of. cbn [pc_parent pc_ref fst snd].
+  destruct (objs (node_oid p) d) as [|n0 t]; [discriminate|]. simpl in Hfind. inversion Hfind; subst n0.
+  destruct p as [i v|i kvs|i els|i els]; try discriminate; simpl in Hc.
+  - destruct Hc as [kv [Hkv [_ Hkey]]]. simpl.
+    assert (Hne : first_idx (fun kv0 => leaf_eq r (fst kv0)) kvs <> None).
+    { apply (first_idx_some _ kvs kv Hkv). simpl in Hfp. rewrite forallb_forall in Hfp.
+      specialize (Hfp kv Hkv). apply andb_prop in Hfp. destruct Hfp as [Hl _].
+      unfold leaf_eq. destruct (fst kv) as [ki kvv| | |]; try discriminate. simpl in Hkey.
+      destruct Hkey as [<-|Hkey]; [apply py_eq_refl|exact Hkey]. }
+    destruct (first_idx _ kvs); [reflexivity|congruence].
+  - destruct Hc as [z [-> Hsel]]. apply sel_element_some in Hsel. cbv zeta in Hsel. destruct Hsel as [Hr _].
+    simpl. destruct ((0 <=? z)%Z && (z <? Z.of_nat (List.length els))%Z) eqn:E1; [reflexivity|].
+    destruct ((z <? 0)%Z && (0 <=? z + Z.of_nat (List.length els))%Z) eqn:E2; [reflexivity|]. exfalso.
+    apply andb_false_iff in E1. apply andb_false_iff in E2.
+    destruct E1 as [E1|E1]; [apply Z.leb_gt in E1|apply Z.ltb_ge in E1];
+      (destruct E2 as [E2|E2]; [apply Z.ltb_ge in E2|apply Z.leb_gt in E2]); lia.
+Qed.
+
 Section EndToEnd.
 Variable lit : string -> outcome litres.
 Variable re_search : string -> string -> outcome reres.
@@ -215,6 +253,50 @@ Proof.
   unfold gathered. repeat split; assumption.
 Qed.
 
+
+Lemma items_located d items sem :
+  wf_doc d -> ce_flat d = true -> mkeys_distinct d = true ->
+  Forall (res_loc true d) items -> map item_res items = sem -> ce_plain sem = true ->
+  forallb ce_elem_parent items = true ->
+  del_all_located d (map pc_pair (map coord_of items)) = true.
+Proof.
+  intros Hwf Hf Hk. revert sem. induction items as [|x r IH]; intros sem Hl Hm Hp He; simpl in *; [reflexivity|].
+  subst sem. simpl in Hp. inversion Hl as [|? ? Hx Hr]; subst.
+  apply andb_prop in He. destruct He as [He1 He2].
+  destruct (item_res x) as [m| |] eqn:Ei; try discriminate.
+  rewrite (located_del d x m Hwf Hf Hk Hx Ei He1). simpl. apply (IH _ Hr eq_refl Hp He2).
+Qed.
+
+(* C04's hypothesis, derived: when no result is the root or a set member, every gathered coordinate
+   locates a node (del_all_located) *)
+Theorem gathered_all_located segs d :
+  c01_frag (PPath segs) = true -> is_null_node d = false -> specified (GUARD (PPath segs) d) = true ->
+  slices_last segs = true -> ce_plain (SEM (PPath segs) d) = true ->
+  wf_doc d -> ce_flat d = true -> mkeys_distinct d = true ->
+  forallb ce_elem_parent (fst (REQ (PPath segs) d)) = true ->
+  del_all_located d (map pc_pair (GATHERED (PPath segs) d)) = true.
+Proof.
+  intros Hfr Hnn Hsp Hsl Hpl Hwf Hf Hk He.
+  destruct (required_sem lit re_search nstr vstr kw_handler creator (PPath segs) d Hfr Hnn Hsp) as [Hm _].
+  pose proof (required_located lit re_search nstr vstr kw_handler creator d (PPath segs) segs eq_refl Hfr Hsl) as Hl.
+  unfold gathered. eapply items_located; eauto.
+Qed.
+
+(* Processor.delete_nodes(path) end to end, C04's hypothesis discharged *)
+Theorem delete_required_e2e segs d :
+  c01_frag (PPath segs) = true -> is_null_node d = false -> specified (GUARD (PPath segs) d) = true ->
+  slices_last segs = true -> ce_plain (SEM (PPath segs) d) = true ->
+  wf_doc d -> ce_flat d = true -> ce_small d = true -> mkeys_distinct d = true ->
+  forallb ce_elem_parent (fst (REQ (PPath segs) d)) = true ->
+  Forall2 (ce_holds d) (map pc_pair (GATHERED (PPath segs) d)) (SEM (PPath segs) d) /\
+  delete_nodes (map (fun c => CNode c false) (GATHERED (PPath segs) d)) d
+  = MDone (delete_spec d (map pc_pair (GATHERED (PPath segs) d))).
+Proof.
+  intros Hfr Hnn Hsp Hsl Hpl Hwf Hf Hsm Hk He.
+  destruct (gathered_holds_sem segs d Hfr Hnn Hsp Hsl Hpl Hwf Hf Hsm Hk) as [A _].
+  split; [exact A|].
+  apply delete_gathered_exact; [exact Hwf|]. apply gathered_all_located; assumption.
+Qed.
 
 (* ---------------------------------------------------------------------- *)
 (* THE WRITE HALF                                                           *)
